@@ -58,6 +58,12 @@ def run(ctx):
         rq.update({"part": "witness", "instance": inst, "histories": os.path.join(tr["dir"], "challenger_histories.json"),
                    "nwitness": 40 if thorough else 6, "shard": 20})
         jobs.append(("c14", rq))
+        if inst == "testdata" or thorough:
+            # no query rounds at all (num_query_rounds = 0 in both copies of the configuration): the condition on the response is the only
+            # thing left of FRI, and it is still enforced
+            rq0 = dict(rq)
+            rq0.update({"zero_rounds": True, "nwitness": 12 if thorough else 3, "shard": 25})
+            jobs.append(("c14", rq0))
         # the response must be derived from the witness actually supplied also when the sponge's input block is partly filled at
         # that moment (a final polynomial of 1 or 2 coefficients; every shipped proof has 16 = four full blocks)
         for fl in (1, 2):
@@ -70,7 +76,7 @@ def run(ctx):
             jobs.append(("c14", rq2))
 
     def one(j):
-        return ctx.run_driver(j[0], j[1], tag=str(j[1].get("shard")) + j[1].get("instance", "") + str(j[1].get("final_len", "")), timeout=3000)
+        return ctx.run_driver(j[0], j[1], tag=str(j[1].get("shard")) + j[1].get("instance", "") + str(j[1].get("final_len", "")) + ("z" if j[1].get("zero_rounds") else ""), timeout=3000)
 
     with ThreadPoolExecutor(max_workers=common.NCPU) as ex:
         for rr in ex.map(one, jobs):
